@@ -92,7 +92,6 @@ package recordlayer
 //@ end
 
 //@ func InnerPlaintext.Unmarshal
-//@ inline
 //@ loop i: padding: forall(i+1, len(data), func(j int) bool { return data[j] == 0 })
 //@ loop i: input-kept: forall(0, len(data), func(j int) bool { return data[j] == old(data[j]) })
 //@ ensures empty: len(data) == 0 ==> result != nil
